@@ -65,6 +65,9 @@ TReset == /\ Is("Reset") /\ Step
           /\ meta' = <<>> /\ UNCHANGED <<rss, nrun>>
 \* work(): the next operand of the same process
 TStart == /\ Is("Start") /\ Step
+          \* C13: what a run may hold is linear in the worker count, with buffers no larger than one maximal block / I/O block
+          /\ Must(Ev.og <= 900000 /\ Ev.ig <= 1048576 /\ Ev.tout <= 32 * Ev.W + 8 /\ Ev.tin <= 8 * Ev.W + 8,
+                  "slot totals linear in the worker count, buffer sizes within one block")
           /\ Must(Ev.d = 0, "compression run")
           /\ Must(\A t \in Tids : Carry(t) = None, "no job in flight")
           /\ DReset([W |-> Ev.W, TotIn |-> Ev.tin, TotOut |-> Ev.tout, Ultra |-> (Ev.ultra = 1),
@@ -190,7 +193,11 @@ TUninit == /\ Is("Uninit") /\ Step
                    "the heap is back to its size at the start of the run (nothing allocated for the run outlives it)")
            /\ rss' = Ev.rss /\ UNCHANGED <<dvars, meta, nrun>>
 
-Next == \/ TReset \/ TStart \/ TInit \/ TSrcTake \/ TSrcRel \/ TAvail \/ TEof
+\* the main thread's path through main.c / signals.c (validated by TraceCrash.tla) is stuttering here
+MainPathEv == {"OpIn", "Cli", "OpOut", "Worked", "Halt", "OutDone", "InRm", "Sti", "StiDone", "InDone", "Exit", "Cleanup", "Terminate", "BailoutMain", "BailoutSub"}
+TMainPath == l <= Len(TraceLog) /\ Ev.e \in MainPathEv /\ Step /\ UNCHANGED dvars /\ Keep
+
+Next == \/ TMainPath \/ TReset \/ TStart \/ TInit \/ TSrcTake \/ TSrcRel \/ TAvail \/ TEof
         \/ TWStart \/ TWWait \/ TWWake \/ TWExit
         \/ TCollectBegin \/ TCollectRequeue \/ TCollectEnd
         \/ TSeqBegin \/ TSeqRequeue \/ TSeqPark \/ TSeqToken \/ TSeqEnd
